@@ -60,8 +60,11 @@ class MoveRecorder:
 def matrix(draw, kind, nmax):
     """kind: und | dir | sign | bin-und | bin-dir"""
     directed = kind in ("dir", "bin-dir")
-    fam = draw(st.sampled_from(["planted", "planted", "er", "hier"]))
-    if fam == "planted":
+    fam = draw(st.sampled_from(["planted", "planted", "er", "hier", "uniform-complete"]))
+    if fam == "uniform-complete":
+        # no community structure at all: every pair connected with the same weight (for gamma > 1 one module is worse than singletons)
+        A = gen.complete_adj(draw(st.integers(3, nmax)))
+    elif fam == "planted":
         A = draw(gen.planted_adj(3, nmax, directed))
     elif fam == "er":
         A = draw(gen.er_adj(draw(st.integers(3, nmax)), directed))
@@ -83,7 +86,7 @@ def matrix(draw, kind, nmax):
     A[0, 1] = True
     if not directed:
         A[1, 0] = True
-    if draw(st.integers(0, 3)) == 0 and n > 3:      # isolated node
+    if fam != "uniform-complete" and draw(st.integers(0, 3)) == 0 and n > 3:      # isolated node
         v = draw(st.integers(2, n - 1))
         A[v, :] = False
         A[:, v] = False
@@ -100,6 +103,8 @@ def matrix(draw, kind, nmax):
             W = np.where(W < 0, W / 8.0, W)
             if W.sum() <= 0:
                 W = np.abs(W)
+    elif fam == "uniform-complete":
+        W = A.astype(float) * draw(st.sampled_from([1.0, 0.5, 3.0]))
     else:
         W = draw(gen.weights_for(A, draw(st.sampled_from(["bin", "dyadic", "dyadic"])), directed))
     if kind == "sign" and draw(st.integers(0, 4)) == 0:
